@@ -53,6 +53,7 @@ def handle (line : String) : Json :=
         | "db" => LazyDs.MachDriver.handleDb j
         | "groupby" => LazyDs.MachDriver.handleGroupBy j
         | "copycfg" => LazyDs.MachDriver.handleCopyCfg j
+        | "trace" => LazyDs.MachDriver.handleTrace j
         | _ => .error s!"unknown family {fam}"
       match r with
       | .ok v => v
